@@ -38,17 +38,22 @@ def run_workload(ctx, prop, seed, nops, size, profile, unstable, budget, thoroug
     return fails, st
 
 
-def run(ctx, prop, workloads):
-    """workloads: list of (profile, nops, size, unstable, budget)"""
+def run(ctx, prop, workloads, own=None):
+    """workloads: list of (profile, nops, size, unstable, budget[, seed]); own: regex on the failure detail selecting
+       the relations this property owns (None: all)"""
     fails = []
     tot = dict(images=0, ok=0, events=0, ops=0, workloads=0)
     samples = []
-    for k, (profile, nops, size, unstable, budget) in enumerate(workloads):
-        fs, st = run_workload(ctx, prop, ctx.seed * 101 + k, nops, size, profile, unstable, budget, thorough=not ctx.quick, tag=str(k))
+    for k, wl in enumerate(workloads):
+        profile, nops, size, unstable, budget = wl[:5]
+        seed = wl[5] if len(wl) > 5 else ctx.seed * 101 + k
+        fs, st = run_workload(ctx, prop, seed, nops, size, profile, unstable, budget, thorough=not ctx.quick, tag=str(k))
         # one failure per signature per workload
         seen = set()
         for f in fs:
             if f.where in seen:
+                continue
+            if own and f.kind == 'crash' and not re.search(own, f.detail):
                 continue
             seen.add(f.where)
             fails.append(f)
